@@ -107,10 +107,15 @@ fn run_inner<F: Flavour>(sc: &HistSc, verdict: Verdict, stats: &mut Stats, solo:
         } else {
             None
         };
+        if op.is_mutation() && !matches!(op.prov(), crate::model::Prov::Own | crate::model::Prov::Clone | crate::model::Prov::Search | crate::model::Prov::PathNode) {
+            if let Caught::Ok(true) = caught(|| world.provenance_available(op.subject(), op.prov())) {
+                stats.inc(&format!("provenance_realised_{:?}", op.prov()).to_lowercase());
+            }
+        }
         let obs = world.exec(op);
         stats.inc("calls");
         stats.inc(&format!("op_{}", op.name()));
-        stats.mark("handle_provenance_used", op.prov() as u64);
+        stats.mark("handle_provenance_requested", op.prov() as u64);
         let shape_before = model.shape_hash();
         if model.has_self_loop() {
             stats.inc("calls_in_state_with_self_loop");
@@ -265,6 +270,10 @@ fn run_inner<F: Flavour>(sc: &HistSc, verdict: Verdict, stats: &mut Stats, solo:
         stats.mark("abstract_states", model.shape_hash());
         if let Op::Connect { u, v, .. } = op {
             let l = model.out(*u).len().max(model.inn(*v).len());
+            let distinct: std::collections::BTreeSet<usize> = model.out(*u).iter().chain(model.inn(*u).iter()).map(|x| x.0).collect();
+            if distinct.len() >= 17 {
+                stats.inc("probe_node_with_ge_17_distinct_neighbours");
+            }
             if l >= 257 {
                 stats.inc("probe_list_len_ge_257");
             } else if l >= 33 {
@@ -328,6 +337,61 @@ impl Hist {
     }
 }
 
+impl Hist {
+    /// A hub with many DISTINCT neighbours (20-60 nodes, keys with one and two digits), edges in
+    /// both directions, then removals around the hub.
+    fn generate_star(&self, rng: &mut Rng) -> HistSc {
+        let fl = self.flavours();
+        let mut flavour = fl[rng.below(fl.len())].to_string();
+        if let Some(f) = crate::runner::only_flavour() {
+            if fl.contains(&f.as_str()) {
+                flavour = f;
+            }
+        }
+        let directed = flavour.contains("digraph");
+        let n = rng.range(20, 60);
+        let hub = rng.below(n);
+        let mut m = Model::new(directed, n);
+        let mut next_edge = 100;
+        let mut initial = Vec::new();
+        for v in 0..n {
+            if v == hub && !rng.chance(1, 3) {
+                continue;
+            }
+            for _ in 0..rng.range(1, 2) {
+                next_edge += 1;
+                let (a, b) = if rng.coin() { (hub, v) } else { (v, hub) };
+                initial.push((a, b, next_edge));
+                m.edges.push(crate::model::MEdge { val: next_edge, u: a, v: b });
+            }
+        }
+        rng.shuffle(&mut initial);
+        m.edges = initial.iter().map(|(u, v, e)| crate::model::MEdge { val: *e, u: *u, v: *v }).collect();
+        let mut cfg = GenCfg::mutations_and_queries();
+        cfg.w = [15, 8, 40, 6, 20, 8, 3];
+        let mut ops = Vec::new();
+        for _ in 0..rng.range(5, 60) {
+            let op = if rng.chance(1, 10) {
+                Op::Isolate { u: hub, h: *rng.pick(&cfg.provs) }
+            } else {
+                gen::gen_op(rng, &m, &mut next_edge, &cfg)
+            };
+            m.step(&op);
+            ops.push(op);
+        }
+        HistSc {
+            flavour,
+            prios: (0..n).map(|_| rng.below(4) as u32).collect(),
+            in_graph: rng.coin(),
+            hash_seed: rng.next_u64(),
+            initial,
+            ops,
+            monitor: *rng.pick(&[0u8, 1, 2]),
+            check_every: *rng.pick(&[1usize, 1, 3]),
+        }
+    }
+}
+
 impl Engine for Hist {
     type Sc = HistSc;
 
@@ -338,6 +402,9 @@ impl Engine for Hist {
     fn generate(&self, rng: &mut Rng, tier: Tier) -> HistSc {
         if rng.chance(1, 4) {
             return self.generate_uniform_small(rng);
+        }
+        if rng.chance(1, 60) {
+            return self.generate_star(rng);
         }
         let fl = self.flavours();
         let mut flavour = fl[rng.below(fl.len())].to_string();
